@@ -12,7 +12,7 @@ from ..drivers import index as ix
 from ..drivers import index_chains, fromarray_cases
 
 OWN = "C06"
-SIZES = {"quick": dict(chains=220, steps=9, chains3d=30, big=25), "thorough": dict(chains=6000, steps=14, chains3d=600, big=500)}
+SIZES = {"quick": dict(chains=700, steps=10, chains3d=80, big=60), "thorough": dict(chains=6000, steps=14, chains3d=600, big=500)}
 
 
 def record(tier, own):
